@@ -1976,6 +1976,9 @@ def run_scenario(ctx, servers, sc, ops, stream="e2e"):
             if tr.startswith("git-") or kind == "fetchall":
                 # these clients only ask for refs they do not hold yet: the depth counts from those
                 depth_tips = {t for t in wants if not {i for i in g.closure([t]) if i in g.objs} <= recv_ids}
+                if tr.startswith("git-"):
+                    # C git does not even want a ref whose tip object it already has (shallow or not)
+                    depth_tips = {t for t in depth_tips if t not in recv_ids}
             ctx.count(stream, (tuple(g.tokens()), tuple(sorted(sc["srefs"].items())), tuple(sorted(sc["rrefs"].items())),
                                tag, var_key(var), tuple(sorted(op.get("refs", ())))), res["ok"], tag + (":ok" if res["ok"] else ":fail"))
             if not res["ok"]:
